@@ -189,10 +189,11 @@ class C09(Check):
     theorems = ["Pox.C09.up_once", "Pox.C09.down_once", "Pox.C09.registry_exact", "Pox.C09.registry_exact_no_overlap", "Pox.C09.early_ps",
                 "Pox.C09.close_only_when_lost", "Pox.C09.registry_exact_full_defect", "Pox.C09.registry_samedpid_needed_defect",
                 "Pox.C09.early_ps_full_defect", "Pox.C09.d3_defect", "Pox.C09.down_without_up_defect",
-                "Pox.C09.dispatch_after_disconnect_defect", "Pox.C09.error_closes_defect"]
-    anchors = [("pox/openflow/of_01.py", 175, 260), ("pox/openflow/of_01.py", 285, 395), ("pox/openflow/of_01.py", 805, 811),
-               ("pox/openflow/of_01.py", 823, 846), ("pox/openflow/of_01.py", 862, 894), ("pox/openflow/of_01.py", 1085, 1109),
-               ("pox/openflow/of_01.py", 1140, 1147), ("pox/openflow/__init__.py", 369, 392), ("pox/openflow/__init__.py", 400, 410)]
+                "Pox.C09.dispatch_after_disconnect_defect", "Pox.C09.error_closes_defect",
+                "Pox.C09.listeners_none_is_model", "Pox.C09.up_listener_disconnects_defect"]
+    # name-based anchors, resolved on the tree under test by common.AnchorCoverage (robust to line shifts)
+    anchors = [('pox/openflow/of_01.py', n) for n in ['DefaultOpenFlowHandlers.handle_STATS_REPLY', 'DefaultOpenFlowHandlers.handle_PORT_STATUS', 'DefaultOpenFlowHandlers.handle_PACKET_IN', 'DefaultOpenFlowHandlers.handle_ERROR', 'DefaultOpenFlowHandlers.handle_BARRIER_REPLY', 'DefaultOpenFlowHandlers.handle_HELLO', 'DefaultOpenFlowHandlers.handle_ECHO_REQUEST', 'DefaultOpenFlowHandlers.handle_FEATURES_REPLY', 'HandshakeOpenFlowHandlers.handle_BARRIER_REPLY', 'HandshakeOpenFlowHandlers.handle_ERROR', 'HandshakeOpenFlowHandlers.handle_HELLO', 'HandshakeOpenFlowHandlers.handle_ECHO_REQUEST', 'HandshakeOpenFlowHandlers.handle_STATS_REPLY', 'HandshakeOpenFlowHandlers.handle_FEATURES_REPLY', 'HandshakeOpenFlowHandlers.handle_PORT_STATUS', 'HandshakeOpenFlowHandlers._finish_connecting', 'Connection.close', 'Connection.disconnect', 'Connection.send', 'handle_OFPST_DESC', 'OpenFlow_01_Task.run']] + \
+              [('pox/openflow/__init__.py', n) for n in ['OpenFlowNexus.connections', 'OpenFlowNexus.getConnection', 'OpenFlowNexus.sendToDPID', 'OpenFlowNexus._connect', 'OpenFlowNexus._disconnect']]
     design_ref = "DESIGN.md §5 C09, §6 D3, Appendix E"
     coverage_cases = 1000000                     # every case runs under the line tracer (cheap here)
     technique = ("Lean 4 proof (invariants over all operation histories of a small-step model of Connection/handshake handlers/nexus, "
@@ -248,41 +249,44 @@ class C09(Check):
             if w is not None: w.log.append(["reg", con.dpid, w.idx(con)])
             return orig_connect(con)
         nexus._connect = connect_rec
-        self.anchors = self.compute_anchors()
+        self.variant = self.detect_variant()
 
-    def compute_anchors(self):
-        """anchored line ranges = the bodies of the functions the model mirrors, located by name in the tree under test
-        (line numbers move when a fix lands)"""
-        import inspect
-        of_01 = self.of_01
-        import pox.openflow as ofmod
-        out = []
-        def body(f):
-            f = getattr(f, "__func__", f)
-            f = getattr(f, "fget", f)
-            lines, first = inspect.getsourcelines(f)
-            k = 0
-            while not lines[k].lstrip().startswith("def "): k += 1
-            k += 1
-            rel = os.path.relpath(inspect.getsourcefile(f), common.REPO)
-            out.append((rel, first + k, first + len(lines) - 1))
-        D, H, C, N = of_01.DefaultOpenFlowHandlers, of_01.HandshakeOpenFlowHandlers, of_01.Connection, ofmod.OpenFlowNexus
-        for f in (D.handle_STATS_REPLY, D.handle_PORT_STATUS, D.handle_PACKET_IN, D.handle_ERROR, D.handle_BARRIER_REPLY, D.handle_HELLO,
-                  D.handle_ECHO_REQUEST, D.handle_FEATURES_REPLY, H.handle_BARRIER_REPLY, H.handle_ERROR, H.handle_HELLO, H.handle_ECHO_REQUEST,
-                  H.handle_STATS_REPLY, H.handle_FEATURES_REPLY, H.handle_PORT_STATUS, H._finish_connecting, C.close, C.disconnect, C.send,
-                  N.connections, N.getConnection, N.sendToDPID, N._connect, N._disconnect, of_01.handle_OFPST_DESC):
-            body(f)
-        lines, first = inspect.getsourcelines(of_01.OpenFlow_01_Task.run)
-        rel = os.path.relpath(inspect.getsourcefile(of_01.OpenFlow_01_Task.run), common.REPO)
-        idx = lambda text, start=0: next(i for i in range(start, len(lines)) if text in lines[i])
-        a = idx("while core.running"); b_ = idx("listener.accept()"); c = idx("new_sock.setblocking(0)", b_); d = idx("except KeyboardInterrupt")
-        out.append((rel, first + a, first + b_)); out.append((rel, first + c, first + d - 1))
+    # which of the proposed repairs the tree under test has is read off the source (statement text of the two functions; an unknown
+    # shape is an error, not a guess); the driver evaluates the model at that variant and the correspondence validates the choice
+    VARIANT_SHAPES = {
+        "dpid": ("DefaultOpenFlowHandlers", "handle_FEATURES_REPLY", {
+            False: "con.features = msg\ncon.original_ports._ports = set(msg.ports)\ncon.ports._reset()\ncon.dpid = msg.datapath_id\ncon.ofnexus._connect(con)\n"
+                   "e = con.ofnexus.raiseEventNoErrors(FeaturesReceived, con, msg)\nif e is None or e.halt != True:\n    con.raiseEventNoErrors(FeaturesReceived, con, msg)",
+            True: "con.features = msg\ncon.original_ports._ports = set(msg.ports)\ncon.ports._reset()\nif con.dpid != msg.datapath_id:\n"
+                  "    con.ofnexus._disconnect(con.dpid, con)\ncon.dpid = msg.datapath_id\ncon.ofnexus._connect(con)\n"
+                  "e = con.ofnexus.raiseEventNoErrors(FeaturesReceived, con, msg)\nif e is None or e.halt != True:\n    con.raiseEventNoErrors(FeaturesReceived, con, msg)"}),
+        "stop": ("HandshakeOpenFlowHandlers", "_finish_connecting", {
+            False: "con.ofnexus._connect(con)\ncon.info('connected')\ncon.connect_time = time.time()\ncon.handlers = _default_handlers.handlers\n"
+                   "con.ofnexus.raiseEventNoErrors(ConnectionHandshakeComplete, con)\ne = con.ofnexus.raiseEventNoErrors(ConnectionUp, con, con.features)\n"
+                   "if e is None or e.halt != True:\n    con.raiseEventNoErrors(ConnectionUp, con, con.features)\nif con.features:",
+            True: "con.ofnexus._connect(con)\ncon.info('connected')\ncon.connect_time = time.time()\ncon.handlers = _default_handlers.handlers\n"
+                  "con.ofnexus.raiseEventNoErrors(ConnectionHandshakeComplete, con)\ne = con.ofnexus.raiseEventNoErrors(ConnectionUp, con, con.features)\n"
+                  "if con.disconnected:\n    return\nif e is None or e.halt != True:\n    con.raiseEventNoErrors(ConnectionUp, con, con.features)\nif con.features:"})}
+
+    def detect_variant(self):
+        import ast
+        tree = ast.parse(open(os.path.join(common.REPO, "pox/openflow/of_01.py")).read())
+        out = {}
+        for flag, (cls, fn, shapes) in self.VARIANT_SHAPES.items():
+            c = [n for n in tree.body if isinstance(n, ast.ClassDef) and n.name == cls][0]
+            f = [n for n in c.body if isinstance(n, ast.FunctionDef) and n.name == fn][0]
+            text = "\n".join(ast.unparse(x) for x in f.body)
+            hits = [k for k, shape in shapes.items() if text.startswith(shape)]
+            if len(hits) != 1: raise RuntimeError("%s.%s has a shape the C09 model does not know:\n%s" % (cls, fn, text[:400]))
+            out[flag] = hits[0]
         return out
 
     def extra_evidence(self):
-        return {"uncovered_explained": "anchored lines never executed are outside the modelled behaviour: request_description=False (of_01.py:315), the "
-                "version check unreachable through read() (:333-335), a custom arbiter returning no nexus (:349-352), `except: pass` arms (:809-810, :852-862), "
-                "the aborted-connections debug timer (:833), and the deferred-sender / partial-write / EAGAIN arms of Connection.send (:880-893, C20's business)"}
+        return {"variant": self.variant,
+                "uncovered_explained": "anchored lines never executed are outside the modelled behaviour: request_description=False, the version check unreachable "
+                "through read(), a custom arbiter returning no nexus, `except: pass` arms, the aborted-connections debug timer, the deferred-sender / partial-write / "
+                "EAGAIN arms of Connection.send (C20's business), and in OpenFlow_01_Task.run (anchored whole): bind errors, the SSL branch, pcap wrapping and the "
+                "exception handler after the loop (C10's business)"}
 
     def app_listener(self, which):
         """an application's nexus-level ConnectionUp / ConnectionDown handler that re-enters the controller:
@@ -292,7 +296,7 @@ class C09(Check):
             w, act = chk.sink[0], chk.listeners.get(which)
             if w is None or act is None: return
             i = w.idx(ev.connection)
-            x = 5000 + len(w.log)
+            x = (5000 if which == "up" else 6000) + i
             if act == "send":
                 ev.connection.send(hdr(T_BARRIER_REQ, 8, x))
             elif act == "disc":
@@ -404,7 +408,7 @@ class C09(Check):
                 "next_xid": nx, "nsteps": [len(op["msgs"]) if op["op"] == "recv" else 1 for op in case["ops"]]}
 
     # ------------------------------------------------------------------ model glue
-    CFG = {"old": {"d3": False, "down": False, "read": False, "err": False}}
+    OLD_CFG = {"d3": False, "down": False, "read": False, "err": False, "dpid": False}
     def dpids_of(self, case):
         ds = set()
         for op in case["ops"]:
@@ -415,10 +419,11 @@ class C09(Check):
         return sorted(ds)
 
     def model_request2(self, case, obs):
-        if case.get("listeners"): return None                        # re-entrant listeners are outside the model: oracle only
-        req = {"ops": obs["resolved"], "dpids": self.dpids_of(case)}
-        cfg = os.environ.get("VERIF_C09_CFG")
-        if cfg in self.CFG: req["cfg"] = self.CFG[cfg]               # manual use only: compare the unrepaired model with an unrepaired tree
+        req = {"ops": obs["resolved"], "dpids": self.dpids_of(case),
+               "cfg": {"d3": True, "down": True, "read": True, "err": True, "dpid": self.variant["dpid"]}}
+        ls = case.get("listeners")
+        if ls: req["listeners"] = {"up": ls.get("up"), "down": ls.get("down"), "stop": self.variant["stop"]}
+        if os.environ.get("VERIF_C09_CFG") == "old": req["cfg"] = self.OLD_CFG      # manual use only: the unrepaired model against an unrepaired tree
         return req
 
     def impl_view(self, case, obs):
@@ -591,7 +596,6 @@ class C09(Check):
         return c
 
     LISTENERS = [{"up": "send"}, {"up": "sendto"}, {"down": "sendto"}, {"up": "send", "down": "sendto"}, {"up": "sendto", "down": "sendto"}]
-    REENTRANT_DISC_KEY = "reentrant:up-listener-disconnects:down:without-up"
 
     def with_listeners(self, case, ls):
         c = dict(case); c["listeners"] = ls; c["tag"] = case.get("tag", "") + "/listeners"
@@ -601,9 +605,7 @@ class C09(Check):
         """histories run with application listeners that re-enter the controller from inside ConnectionUp / ConnectionDown
         (oracle only: the model and the theorems assume listeners that do not re-enter)"""
         base = list(self.specials()) + list(self.orders(2, [(5, 5), (5, 6)], [("eof", "err"), ("senderr", "disc")])) + list(self.loss_points())[::5]
-        variants = list(self.LISTENERS)
-        if common.Findings().match(self.id, self.REENTRANT_DISC_KEY):   # the ConnectionUp listener that disconnects: known finding C09-6 once registered
-            variants += [{"up": "disc"}, {"up": "disc", "down": "sendto"}]
+        variants = list(self.LISTENERS) + [{"up": "disc"}, {"up": "disc", "down": "sendto"}]
         for j, c in enumerate(base):
             for t, ls in enumerate(variants):
                 c2 = self.with_listeners(c, ls)
@@ -732,6 +734,9 @@ class C09(Check):
                 name, i, arg = e[1], e[2], e[3]
                 if name == "ConnectionUp":
                     if (tag, i) in up_at: return "up:twice ConnectionUp raised twice on %s for connection %d" % (tag, i)
+                    if ("nexus", i) in down_at or ("con", i) in down_at:
+                        return "up:after-down ConnectionUp raised on %s for connection %d after its ConnectionDown" % (tag, i)
+                    if tag == "con" and ("nexus", i) not in up_at: return "up:nexus-con-mismatch connection %d announced on the connection only" % i
                     up_at[(tag, i)] = pos
                     if i not in feat_in: return "up:without-features connection %d announced before any features reply" % i
                     li = last_in.get(i)
@@ -742,9 +747,11 @@ class C09(Check):
                 elif name == "ConnectionDown":
                     if (tag, i) in down_at: return "down:twice ConnectionDown raised twice on %s for connection %d" % (tag, i)
                     down_at[(tag, i)] = pos
-                    if (tag, i) not in up_at: return "down:without-up ConnectionDown on %s for connection %d which was never announced" % (tag, i)
+                    # "announced" = ConnectionUp raised on the nexus (the connection-level raise is skipped when a nexus-level
+                    # ConnectionUp handler drops the connection)
+                    if ("nexus", i) not in up_at: return "down:without-up ConnectionDown on %s for connection %d which was never announced" % (tag, i)
                 elif name == "PortStatus":
-                    if (tag, i) not in up_at: return "early_ps:before-up PortStatus raised for connection %d before its ConnectionUp" % i
+                    if ("nexus", i) not in up_at: return "early_ps:before-up PortStatus raised for connection %d before its ConnectionUp" % i
                     ps_ev[i][tag].append(arg)
             elif tag == "hsendto":
                 which, i, d, x, ret, exp, exp_ok = e[1:]
@@ -762,12 +769,14 @@ class C09(Check):
         final = obs["states"][-1] if obs["states"] else []
         for i in range(len(final)):
             announced = ("nexus", i) in up_at
-            if announced != (("con", i) in up_at): return "up:nexus-con-mismatch connection %d" % i
+            skipped = announced and ("con", i) not in up_at          # legitimate only if the connection was dropped during the nexus-level raise
+            if skipped and not obs["states"][log[up_at[("nexus", i)]][0]][i]["disc"]:
+                return "up:nexus-con-mismatch connection %d announced on the nexus but not on the connection" % i
             lost = final[i]["closed"] or (disc_by and i in disc_by[-1])
             if announced and lost and (("nexus", i) not in down_at or ("con", i) not in down_at):
                 return "down:missing connection %d was announced and is lost but no ConnectionDown was raised" % i
             if announced:
-                want = ps_in[i][ps_window_start.get(i, 0):]
+                want = [] if skipped else ps_in[i][ps_window_start.get(i, 0):]
                 for where in ("nexus", "con"):
                     if ps_ev[i][where] != want:
                         return "early_ps:lost-or-reordered connection %d: port-status raised on %s %s, received since the features reply %s" % (i, where, ps_ev[i][where], want)
